@@ -64,14 +64,24 @@ fn parts(id: &'static str, tier: Tier, seed: u64) -> Vec<Part> {
         "C18" => vec![
             seq_part(id, tier, seed),
             Part { rule: props_misc::C18_EXH_RULE.to_string(), run: Box::new(|ctx, acc| props_misc::run_c18_exhaustive(ctx, acc)) },
+            Part { rule: props_misc::VLT_RULE_C18.to_string(), run: Box::new(|ctx, acc| props_misc::run_vlt(ctx, acc, true)) },
         ],
-        "C13" => vec![seq_part(id, tier, seed), e3_part(id)],
+        "C13" => vec![
+            seq_part(id, tier, seed),
+            e3_part(id),
+            Part { rule: props_misc::VLT_RULE_C13.to_string(), run: Box::new(|ctx, acc| props_misc::run_vlt(ctx, acc, false)) },
+        ],
         "C07" => vec![
             seq_part(id, tier, seed),
             e3_part(id),
             Part { rule: props_e3::STRESS_SHARED_RULE.to_string(), run: Box::new(|ctx, acc| props_e3::run_stress_shared(ctx, acc, false, true)) },
         ],
-        "C12" | "C20" => vec![seq_part(id, tier, seed), e2_part(id, tier)],
+        "C12" => vec![seq_part(id, tier, seed), e2_part(id, tier), e3_part(id)],
+        "C20" => vec![
+            seq_part(id, tier, seed),
+            e2_part(id, tier),
+            Part { rule: props_e2::C20_FAULT_RULE.to_string(), run: Box::new(|ctx, acc| props_e2::run_c20_fault(ctx, acc)) },
+        ],
         "C06" => vec![
             seq_part(id, tier, seed),
             e2_part(id, tier),
@@ -181,6 +191,7 @@ fn replay_case(id: &'static str, engine: &str, case: serde_json::Value) -> R<Cas
         "E1" => props_seq::replay_seq(id, case),
         "E2" => props_e2::replay_e2(id, case),
         "E2PL" => props_e2::replay_e2_pl(case),
+        "E2FD" => props_e2::replay_c20_fault(case),
         "E2F" => props_e2::replay_c14(case),
         "E3" => props_e3::replay_e3(id, case),
         "E3E" => props_e3::replay_e3_enum(id, case),
@@ -191,6 +202,7 @@ fn replay_case(id: &'static str, engine: &str, case: serde_json::Value) -> R<Cas
         "C19I" => props_misc::replay_c19i(case),
         "C19P" => props_misc::replay_c19p(case),
         "C02L" => props_misc::replay_c02l(case),
+        "VLT" => props_misc::replay_vlt(case),
         "XDEV" => props_e2::replay_xdev(case),
         "C17" => props_misc::replay_c17(case),
         "C19" => props_misc::replay_c19(case),
